@@ -404,6 +404,118 @@ def index_law(ctx):
     return res
 
 
+def _strip_ravel(e):
+    while True:
+        if isinstance(e, ast.Call) and unparse(e.func) in (
+                'np.ravel', 'np.asarray', 'np.array') and e.args:
+            e = e.args[0]
+        elif isinstance(e, ast.Call) and isinstance(e.func, ast.Attribute) \
+                and e.func.attr in ('ravel', 'flatten') and not e.args:
+            e = e.func.value
+        else:
+            return e
+
+
+def _fit_linear(g):
+    """None when ZernikeFit._fit is the linear least-squares solve described
+    in `fit`, else the reason"""
+    body = [st for st in g.node.body
+            if not (isinstance(st, ast.Expr) and
+                    isinstance(st.value, ast.Constant))]
+    calls = [c for c in ast.walk(g.node) if isinstance(c, ast.Call)]
+    if any(unparse(c.func).endswith('least_squares') for c in calls):
+        return ('the linear fit is handed to scipy.optimize.least_squares '
+                '(zero start, forward-difference Jacobian, absolute gradient '
+                'tolerance): data of small magnitude return all-zero '
+                'coefficients, large data the initial guess')
+    defs = {}
+    for st in body:
+        if isinstance(st, ast.Assign) and len(st.targets) == 1:
+            t = st.targets[0]
+            if isinstance(t, ast.Name):
+                defs[t.id] = st.value
+            elif isinstance(t, ast.Tuple) and t.elts and \
+                    isinstance(t.elts[0], ast.Name):
+                defs[t.elts[0].id] = ast.Subscript(
+                    value=st.value, slice=ast.Constant(0), ctx=ast.Load())
+
+    def resolve(e, depth=0):
+        while isinstance(e, ast.Name) and e.id in defs and depth < 6:
+            e = defs[e.id]
+            depth += 1
+        return e
+    stores = [(i, st) for i, st in enumerate(body)
+              if isinstance(st, ast.Assign) and
+              unparse(st.targets[0]) == 'self.zernike.coeffs']
+    if not stores:
+        return 'the solution is not stored in self.zernike.coeffs'
+    i_last, last = stores[-1]
+    sol = resolve(last.value)
+    if not (isinstance(sol, ast.Subscript) and
+            unparse(sol.slice) == '0' and isinstance(sol.value, ast.Call) and
+            unparse(sol.value.func) in ('np.linalg.lstsq',
+                                        'scipy.linalg.lstsq', 'lstsq')):
+        return ('the stored coefficients are not the solution [0] of a '
+                'linear least-squares solve')
+    ls = sol.value
+    for k in ls.keywords:
+        if k.arg == 'rcond' and unparse(k.value) not in ('None', '-1'):
+            return (f'lstsq is called with rcond={unparse(k.value)}: small '
+                    f'singular values are cut off, exact combinations are '
+                    f'not recovered')
+        if k.arg not in ('rcond',):
+            return f'lstsq is called with {k.arg}'
+    if len(ls.args) != 2:
+        return 'lstsq is not called with (A, z)'
+    rhs = _strip_ravel(resolve(ls.args[1]))
+    if unparse(rhs) != 'self.z':
+        return (f'the right-hand side of the solve is {unparse(rhs)}, not '
+                f'the data')
+    A_ = resolve(ls.args[0])
+    if not (isinstance(A_, ast.Call) and unparse(A_.func) in (
+            'np.column_stack',) and len(A_.args) == 1):
+        return 'the design matrix is not a column stack of the terms'
+    cols = A_.args[0]
+    if isinstance(cols, ast.ListComp) and len(cols.generators) == 1:
+        src = resolve(cols.generators[0].iter)
+        elt = cols.elt
+        var = cols.generators[0].target
+        # column = term (optionally broadcast with ones of num_pts)
+        ok_elt = isinstance(var, ast.Name) and (
+            unparse(elt) == var.id or (
+                isinstance(elt, ast.BinOp) and isinstance(elt.op, ast.Mult)
+                and var.id in (unparse(elt.left), unparse(elt.right)) and
+                'np.ones(self.num_pts)' in (unparse(elt.left),
+                                            unparse(elt.right))))
+        if not ok_elt:
+            return 'a column of the design matrix is not the term itself'
+    else:
+        src = resolve(cols)
+    if not (isinstance(src, ast.Call) and
+            unparse(src.func) == 'self.zernike.terms' and
+            len(src.args) == 2 and not src.keywords):
+        return ('the columns of the design matrix are not '
+                'self.zernike.terms(radius, phi)')
+    r_, p_ = (_strip_ravel(resolve(x)) for x in src.args)
+    if (unparse(r_), unparse(p_)) != ('self.radius', 'self.phi'):
+        return ('the terms are evaluated at '
+                f'({unparse(r_)}, {unparse(p_)}), not at the sample points '
+                '(radius, phi)')
+    # unit coefficients, num_terms of them, in force when terms() is called
+    unit = [i for i, st in stores[:-1]
+            if unparse(st.value) in ('np.ones(self.num_terms)',
+                                     '[1] * self.num_terms',
+                                     '[1.0] * self.num_terms')]
+    other = [i for i, st in stores[:-1] if i not in unit]
+    i_terms = min((i for i, st in enumerate(body)
+                   if any(c is src for c in ast.walk(st))), default=None)
+    if i_terms is None or not unit or max(unit) > i_terms or \
+            any(max(unit) < j < i_terms for j in other):
+        return ('terms() is not evaluated with num_terms unit coefficients: '
+                'the columns are not the first N terms of the family')
+    return None
+
+
 def fit(ctx):
     P = ctx.P
     res = Result('FAMILY-DISPATCH / FIT-STORE', 'the requested family is the '
@@ -447,64 +559,19 @@ def fit(ctx):
                              construct='ZernikeFit init'))
     g = P.func('ZernikeFit._fit')
     res.saw(g)
-    bad = None
-    for p in annotate(P, g, paths(g)):
-        ls = [e for e in p.events if e.kind == 'call' and
-              call_attr(e) == 'least_squares']
-        st = [e for e in p.events if e.kind == 'store' and
-              unparse(e.node) == 'self.zernike.coeffs']
-        if not ls:
-            bad = 'least_squares is not called'
-        elif not st or p.events.index(st[-1]) < p.events.index(ls[-1]):
-            bad = 'the solution is not stored after the solve'
-        else:
-            rn = None
-            for e in p.events:
-                if e.kind == 'store' and e.extra is ls[-1].node and \
-                        isinstance(e.node, ast.Name):
-                    rn = e.node.id
-            if rn is None or unparse(st[-1].extra) != f'{rn}.x':
-                bad = 'the stored coefficients are not the solver\'s .x'
-            a = [unparse(x) for x in ls[-1].node.args]
-            if a[:1] != ['self._objective']:
-                bad = 'the solver does not minimise self._objective'
-            extra = [k.arg for k in ls[-1].node.keywords
-                     if k.arg not in ('method', 'ftol', 'xtol', 'gtol',
-                                      'max_nfev', 'verbose', 'jac', 'x_scale')
-                     and not (k.arg == 'loss' and isinstance(
-                         k.value, ast.Constant) and k.value.value == 'linear')]
-            # convergence controls: scipy defaults are max_nfev = 100 n and
-            # ftol = xtol = gtol = 1e-8; a literal that is weaker than the
-            # default stops the solver before an exact combination of the
-            # first N terms is recovered (the status is never checked)
-            for k in ls[-1].node.keywords:
-                v = k.value
-                if isinstance(v, ast.Constant) and isinstance(
-                        v.value, (int, float)) and not isinstance(
-                        v.value, bool):
-                    if k.arg == 'max_nfev' and v.value < 100:
-                        bad = (f'least_squares stops after max_nfev='
-                               f'{v.value} evaluations (default 100 n): the '
-                               f'solution is stored unconverged')
-                    if k.arg in ('ftol', 'xtol', 'gtol') and v.value > 1e-8:
-                        bad = (f'least_squares tolerance {k.arg}={v.value} '
-                               f'is looser than the default 1e-8')
-            if extra:
-                bad = (f'least_squares is called with {extra}: the fit is no '
-                       f'longer the plain least-squares projection (not linear '
-                       f'in the data)')
+    # "fitting data that are an exact combination of the first N terms
+    # recovers those coefficients; fitting is linear in the data": the stored
+    # vector must be the least-squares solution of A c = z, A[:, k] = term k
+    # with unit coefficient at the sample points, z the data - a linear solve
+    # (an iterative solver with an absolute tolerance and a finite-difference
+    # Jacobian is neither exact nor homogeneous in the data).
+    bad = _fit_linear(g)
     if bad:
         res.fail(ctx.finding('FIT-STORE', g, g.node, bad,
                              construct='_fit ' + bad[:30]))
     else:
-        res.ok('_fit: coeffs := least_squares(self._objective, guess).x')
-    s = Code(P, g)
-    if 'for _ in range(self.num_terms)' in s:
-        res.ok('initial guess has num_terms entries')
-    else:
-        res.fail(ctx.finding('FIT-STORE', g, g.node,
-                             'initial guess length is not num_terms',
-                             construct='_fit guess length'))
+        res.ok('_fit: coeffs := lstsq(A, z)[0], A = unit-coefficient terms of '
+               'the chosen family at the sample points, num_terms columns')
     o = P.func('ZernikeFit._objective')
     res.saw(o)
     s = Code(P, o)
